@@ -395,6 +395,15 @@ class Normalizer:
             return T.mk_eq(a, b)
         if isinstance(op, ast.NotEq):
             return T.mk_ne(a, b)
+        if isinstance(op, (ast.In, ast.NotIn)) and a[0] == "c" and b[0] in ("list", "tuple", "set", "dict"):
+            # membership of a constant in a display of constants (keys of a dict display) is decided here
+            keys = [x[0] if b[0] == "dict" else x for x in b[1]]
+            if all(k is not None and k[0] == "c" for k in keys):
+                try:
+                    inside = any(k[1] == a[1] and type(k[1]) is type(a[1]) for k in keys)
+                    return C(inside if isinstance(op, ast.In) else not inside)
+                except Exception:
+                    pass
         if isinstance(op, ast.In):
             return ("in", a, b)
         if isinstance(op, ast.NotIn):
@@ -602,6 +611,16 @@ class Normalizer:
         if isinstance(f, ast.Name) and f.id in ("__sa_takewhile__", "__sa_dropwhile__", "__sa_groupby__"):      # produced by sa/desugar.py
             args, kwargs = self._args(e)
             return T.mk_call("itertools." + f.id.strip("_")[3:], args, kwargs)
+        if isinstance(f, ast.Name) and f.id == "__sa_islice__":                                                   # produced by sa/desugar.py
+            e2 = ast.Call(func=ast.Attribute(value=ast.Name(id="itertools", ctx=ast.Load()), attr="islice", ctx=ast.Load()),
+                          args=e.args, keywords=[])
+            ast.copy_location(e2, e)
+            ast.fix_missing_locations(e2)
+            canon = self._canonical_iteration("itertools.islice", e2)
+            if canon is not None:
+                return canon
+            args, kwargs = self._args(e)
+            return T.mk_call("itertools.islice", args, kwargs)
         fs = self._format_call_as_fstring(e)
         if fs is not None:
             return fs
@@ -713,6 +732,22 @@ class Normalizer:
                 return self.norm(call2)
             if not inner and len(bvs) <= 1:
                 return T.substitute(fv[2], {b: args[0] for b in bvs})
+        if fv[0] == "lam" and fv[1] == len(args) and fv[1] >= 2 and not kwargs and self.level == 0 and \
+                not any(a[0] == "star" for a in args) and not any(x[0] == "bv" for a in args for x in T.subterms(a)):
+            # a local function / lambda of several parameters bound at statement level (its parameters are bv 0..n-1) and applied at
+            # statement level: its body with the arguments in place, inner binders renumbered
+            n_par = fv[1]
+            bvs = {x for x in T.subterms(fv[2]) if x[0] == "bv"}
+            mapping = {}
+            for b0 in bvs:
+                mapping[b0] = args[b0[1]] if b0[1] < n_par else ("bv", b0[1] - n_par)
+            return T.substitute(fv[2], mapping)
+        if fv[0] == "fn" and fv[1] in self.ctx.p.functions:
+            # a static method / module function taken as a value (a factory handed to a helper) and called there
+            g = self.ctx.p.functions[fv[1]]
+            if not g.binds_self and not g.is_lambda and not any(isinstance(a, ast.Starred) for a in e.args) and \
+                    not any(k.arg is None for k in e.keywords):
+                return ("app", g.qualname, None, self._bound(g.call_params(), e))
         if fv[0] == "attr" and fv[1][0] == "new" and fv[1][1] in self.ctx.p.classes:
             # a bound method taken as a value (reader.readQueries handed to a helper) and called there: the method call it is
             m = self.ctx.p.lookup_method(self.ctx.p.classes[fv[1][1]], fv[2], None)
